@@ -192,3 +192,9 @@ CLAIMED["C03"]["text"] = CLAIMED["C03"]["text"].replace("PROVED from the real AS
 
 CLAIMED["C15"]["text"] = CLAIMED["C15"]["text"].replace("All other clauses are bounded only.",
     "Also proved: format_synteny on an ordered synteny returns the families in order joined by ', ' and, when a width is given, balanced_wrap of that text. All other clauses are bounded only.")
+
+_KF = " One recorded, unrepaired finding (F-COHERENCE, outside the coherent cost region) is replayed on every run from a listed witness input and printed as a KNOWN-FINDING line; it suppresses nothing else."
+for _p in ("C01", "C02", "C03", "C05"):
+    CLAIMED[_p]["note"] += _KF
+CLAIMED["C04"]["text"] = CLAIMED["C04"]["text"].replace("The decode contracts are not discharged;",
+    "Also proved: _compute_gain_sets / _compute_lca_sets (the sets from which the unordered decoder builds every content: gained at the LCA of the carriers, required below it). The decode contracts are not discharged;")
